@@ -263,6 +263,7 @@ func C18Generate() {
 	outPath := vrt.String("outPath", pathLen)
 	output := vrt.Bool("print")
 	dry := vrt.Bool("dry")
+	vrt.SetEnv("stdout.faulty", true)
 	g := generator.NewGenerator(gmodel.Code{BaseCode: base})
 	res, err := g.Generate(outPath, output, dry)
 
@@ -280,6 +281,12 @@ func C18Generate() {
 		vrt.Assert("write-path", w.path == outPath)
 		vrt.Assert("write-mode", w.mode == 0644)
 		vrt.Assert("write-replaces-the-whole-file", w.whole)
+	}
+	if err != nil && nWrite == 1 {
+		// a run that ends in an error leaves the output as it was: the only error after the
+		// replacement was attempted is the replacement's own failure (not, say, a failing print)
+		op := vrt.EffectOp(vrt.EffectCount() - 1)
+		vrt.Assert("error-after-write-is-write-failure", op == "WriteFile" || op == "OpenFile" || op == "FileWrite" || op == "FileClose" || op == "Rename" || op == "Remove")
 	}
 	if err == nil {
 		if output {
@@ -313,6 +320,7 @@ func C15Run() {
 		return
 	}
 	vrt.SetEnv("stages", "stub")
+	vrt.SetEnv("stdout.faulty", true)
 	conf := config.Config{
 		Input:  vrt.String("conf.Input", pathLen),
 		Output: vrt.String("conf.Output", pathLen),
